@@ -289,7 +289,12 @@ def c_tree(t):
     raise ValueError(t[0])
 
 
+def unforced(t):
+    return t[2] if t[0] == "forced" else t
+
+
 def has_none(t):
+    t = unforced(t)
     if t[0] in ("none", "unknown"):
         return True
     if t[0] in ("and", "or", "exp"):
@@ -403,11 +408,49 @@ def shared_detection_noteq(case):
     return any(v > 1 for ex in case["exprs"] for v in ref_counts(ex, names, {}).values())
 
 
+def resolve_forced(cnd):
+    """Atoms whose negation was decided by parent links that disagree with their position in the tree (a
+    detection referenced several times: its objects are shared and the last reference wins) become atoms of their
+    own with the text the implementation's decision selects - the faithful model of finding D35."""
+    atexts = {i: (a, b) for i, a, b in cnd["atexts"]}
+    vtexts = {i: a for i, a in cnd["vtexts"]}
+    extra_a, extra_v, nxt = [], [], [max(atexts) + 1 if atexts else 0]
+
+    def variant(a, pn):
+        txt = atexts[a][1] if pn else atexts[a][0]
+        i = nxt[0]; nxt[0] += 1
+        extra_a.append([i, txt, txt])
+        if a in vtexts:
+            extra_v.append([i, vtexts[a]])
+        return i
+
+    def fix(t, pn):
+        if t[0] == "atom":
+            return ["atom", t[1], t[2], False, variant(t[4], pn)]
+        if t[0] == "orfresh":
+            return ["orfresh", t[1], [[variant(a, pn), sp, False] for a, sp, _ in t[2]]]
+        if t[0] == "exp":
+            return ["exp", [fix(a, pn) for a in t[1]]]
+        return t
+
+    def walk(t):
+        if t[0] in ("and", "or", "exp"):
+            return [t[0], [walk(a) for a in t[1]]]
+        if t[0] == "not":
+            return ["not", walk(t[1])]
+        if t[0] == "forced":
+            return fix(t[2], t[1])
+        return t
+    tree = walk(cnd["tree"])
+    return dict(cnd, tree=tree, atexts=cnd["atexts"] + extra_a, vtexts=cnd["vtexts"] + extra_v), bool(extra_a)
+
+
 def struct_to_coq(case, r):
     items = expand_cases(case, r)
-    if not items or shared_detection_noteq(case):
+    if not items:
         return None
     cnd, ref = items[case.get("ci", 0)] if case.get("ci", 0) < len(items) else items[0]
+    cnd, _ = resolve_forced(cnd)
     ids = {}
     cref = c_ref(ref, ids)
     if len(ids) > 9:
@@ -427,8 +470,9 @@ def struct_to_coq(case, r):
 
 def tree_unsafe_noteq(t, under_not=False):
     """complement of the theorem's domain in not-equals mode"""
+    t = unforced(t)
     if t[0] == "not":
-        a = t[1]
+        a = unforced(t[1])
         if not (a[0] == "atom" and a[3]):
             return True
         return False
@@ -440,6 +484,7 @@ def tree_unsafe_noteq(t, under_not=False):
 
 
 def tree_has_notexists(t):
+    t = unforced(t)
     if t[0] == "notexists":
         return True
     if t[0] in ("and", "or", "exp"):
@@ -453,9 +498,11 @@ def known_struct(case, r):
     items = expand_cases(case, r)
     if not items:
         return None
-    cnd, _ = items[0]
+    cnd, _ = items[case.get("ci", 0)] if case.get("ci", 0) < len(items) else items[0]
     if case["k"]["not_eq"] and tree_unsafe_noteq(cnd["tree"]):
         return "D5-not-as-not-equals-unsound-negation"
+    if case["k"]["not_eq"] and resolve_forced(cnd)[1]:
+        return "D35-noteq-shared-detection-last-reference-wins"
     if case["k"]["prec"][0] != "not" and tree_has_notexists(cnd["tree"]):
         return "D29-notexists-rewrite-ungrouped"
     return None
@@ -546,7 +593,7 @@ def stratum(case, r):
     if not expand_cases(case, r):
         return "no-reference-or-unsupported"
     if shared_detection_noteq(case):
-        return "noteq-shared-detection-unmodelled"
+        return "noteq-shared-detection"
     return "noteq" if case["k"]["not_eq"] else "normal"
 
 
